@@ -374,6 +374,32 @@ def inventory(repo: str) -> list[str]:
             if name not in shadowed:
                 hows = muts.get((rel, name), set())
                 out.add(f"class-object|{rel}|{name}:{k}|{','.join(['unshadowed'] + sorted(hows))}")
+    return canon_items(sorted(out))
+
+
+SCOPE_FREE = ("ambient-read", "call", "identity-key", "set-iteration")
+
+
+def canon_items(items: list[str]) -> list[str]:
+    """the form in which the inventory is compared with the pinned list.  Two things a behaviour-preserving refactoring changes are
+    taken out (both were hit by the harmless changes benign/A5 and benign/B6, which moved an `os.path.realpath` call into an extracted
+    helper and added a class-level lookup table):
+      * for reads / calls / identity keys / set iterations the enclosing FUNCTION is incidental: the entry names the file and the
+        construct, with the number of occurrences in that file (`…#2`) - a new occurrence still changes the list;
+      * a module- or class-level container that no function of the package mutates (no `@fn` mutation: a constant table, or one
+        filled at import) carries no state between calls and is not listed; one that gains a mutation inside a function appears."""
+    counts: dict[str, int] = {}
+    out: list[str] = []
+    for x in items:
+        f = x.split("|")
+        if f[0] in SCOPE_FREE and len(f) == 4:
+            k = f"{f[0]}|{f[1]}|{f[3]}"
+            counts[k] = counts.get(k, 0) + 1
+            continue
+        if f[0] in ("class-object", "module-object") and "@fn" not in f[-1]:
+            continue
+        out.append(x)
+    out += [f"{k}#{n}" for k, n in counts.items()]
     return sorted(out)
 
 
